@@ -81,7 +81,11 @@ pub fn run_reuse(args: &Args, report: &mut Report) {
         let mut rng = Rng::derive(args.seed, rid, 0x4e05e);
         let data_blocks = *rng.pick(&[24u64, 32, 48, 64, 96]);
         let mut cfg = Cfg::disk(16 + data_blocks);
-        cfg.cache = rng.chance(1, 2);
+        cfg.cache = match args.get("cache") {
+            Some("1") => true,
+            Some("0") => false,
+            _ => rng.chance(1, 2),
+        };
         cfg.ttl = true;
         cfg.cpus = *rng.pick(&[2usize, 4, 8, 16]);
         let path = format!("{}/reuse-{rid}.feox", dir.0);
